@@ -39,7 +39,7 @@ import (
 // All executions must give the same block hash, roots, receipts, interchain / timeout /
 // multi-tx metadata and persisted state.
 
-var c01Ops = []string{"xfer", "reqs", "rcpts", "reqT", "empty", "o2m", "o2mr", "wreq", "freezeA", "regC", "votes", "mixed", "xvm", "svcupd", "svcupdP", "strategy", "dapp", "logoutA"}
+var c01Ops = []string{"xfer", "reqs", "rcpts", "reqT", "empty", "o2m", "o2mr", "wreq", "freezeA", "regC", "votes", "mixed", "xvm", "svcupd", "svcupdP", "strategy", "dapp", "logoutA", "updA"}
 
 type c01Inst struct {
 	rule     string
@@ -132,6 +132,11 @@ func (in *c01Inst) build(op string) ([]pb.Transaction, bool) {
 			return nil, false
 		}
 		return []pb.Transaction{w.InvokeTx(fix.KA, constant.AppchainMgrContractAddr, "LogoutAppchain", pb.String(fix.ChainA), pb.String("r"))}, true
+	case "updA": // appchain update (rename): consults the rule manager for the chain's master rule
+		if in.proposalOpen(in.openProp) {
+			return nil, false
+		}
+		return []pb.Transaction{w.InvokeTx(fix.KA, constant.AppchainMgrContractAddr, "UpdateAppchain", pb.String(fix.ChainA), pb.String(fmt.Sprintf("renamed-A-%d", w.Blocks)), pb.String("desc"), pb.Bytes(nil), pb.String(fix.Addr(fix.KA).String()), pb.String("r"))}, true
 	case "rcpts":
 		var txs []pb.Transaction
 		for _, p := range []struct {
@@ -236,7 +241,7 @@ func (in *c01Inst) build(op string) ([]pb.Transaction, bool) {
 // after updates the history-derived bookkeeping once the block of op was executed.
 func (in *c01Inst) after(op string, txs []pb.Transaction, res *fix.BlockResult) {
 	switch op {
-	case "freezeA", "regC", "strategy", "logoutA", "dapp", "svcupdP":
+	case "freezeA", "regC", "strategy", "logoutA", "dapp", "svcupdP", "updA":
 		if len(res.Receipts) == 1 && res.Receipts[0].IsSuccess() {
 			in.openProp = fix.ProposalID(res.Receipts[0])
 		}
